@@ -1814,8 +1814,8 @@ func (k *Kernel) handleStateMachineAction(ctx context.Context, s *kState, act tm
 			var err error
 			updatedVote, err = k.cmspScheme.New(
 				act.Prevote.SignContent,
-				s.Voting.ValidatorSet.PubKeys,
-				string(s.Voting.ValidatorSet.PubKeyHash),
+				vrv.ValidatorSet.PubKeys,
+				string(vrv.ValidatorSet.PubKeyHash),
 			)
 			if err != nil {
 				k.log.Error(
@@ -1867,8 +1867,8 @@ func (k *Kernel) handleStateMachineAction(ctx context.Context, s *kState, act tm
 		var err error
 		updatedVote, err = k.cmspScheme.New(
 			act.Precommit.SignContent,
-			s.Voting.ValidatorSet.PubKeys,
-			string(s.Voting.ValidatorSet.PubKeyHash),
+			vrv.ValidatorSet.PubKeys,
+			string(vrv.ValidatorSet.PubKeyHash),
 		)
 		if err != nil {
 			k.log.Error(
